@@ -232,7 +232,7 @@ HOSTILE = [
     'bot intent: bot a\nbot action: bot say "a"\n  and bot say "b"', "bot intent: bot z\nbot action: bot say 'single'", 'bot action: bot gesture "wave"',
     'bot intent: bot x\nbot action: bot say "unterminated', "bot action: bot say 4242", "bot action: bot say None", "bot action: bot say $undefined_thing",
     "define flow", "define flow x\n  bot y", 'define user x\n  "y"', "define bot", "define", 'flow x\n  bot say "y"', "flow", "flow main", "if $x\n  bot a", "if", "else", "when", "while True",
-    "while True\n  bot a", "stop", "abort", "return", "return 5", "pass", "break", "continue", "execute foo", "execute", "$x = ...", "...", "# comment only", "await UnknownAction()", "match Never()",
+    "while True\n  bot a", "while True\n  $x = 1", "bot answer other\n$n = 0\nwhile $n < 1\n  $m = $n", "bot answer other\nwhile True\n  pass", "stop", "abort", "return", "return 5", "pass", "break", "continue", "execute foo", "execute", "$x = ...", "...", "# comment only", "await UnknownAction()", "match Never()",
     'send StopFlow(flow_id="main")', "bot action: await UnknownAction()", "bot action: match Never()", 'bot action: send StopFlow(flow_id="main")', "bot action: $x = 1/0", "bot action: abort",
     "bot action: ...", "bot action: activate main", "bot action: await main", "$x = 1/0", "import core", "@active", "meta", "and", "or bot x", "bot a and bot b", "bot a or bot b", "priority 5",
     "bot answer other\n  \"inline text\"", "bot answer other\nsomething that breaks parsing", "bot answer other\n    over indented", "bot answer other\nuser ask something\nbot answer fixed",
@@ -572,6 +572,7 @@ def user_text(cid, t, ttype):
 
 # logical step budgets (function entries into the instrumented interpreter/parser modules) per turn; the largest
 # well-behaved turn seen during calibration: v1 ~45k (300-line generated flow), v2 ~2M (bounded flow-generation recursion)
+SPIN_WINDOW_CPU_S = 10.0  # a whole window of CPU time without entering any function of the parser / runtime modules = spinning inside one call
 STEP_BUDGET = {"v1": 25_000_000, "v2": 8_000_000}  # v1: an endless generated flow runs into the 500-event limit (~0.9M steps); a later turn replays that history on every event
 
 
@@ -593,6 +594,7 @@ def play(app, case, cid):
         app.crashes = []
         text = user_text(cid, t, tt) if app.ver == "v2" else "%s-%s-%d tell me %s" % (UTOK, cid, t, tt)
         steps.start(STEP_BUDGET[app.ver])
+        steps.spin_start(SPIN_WINDOW_CPU_S)
         try:
             if app.ver == "v1":
                 msgs.append({"role": "user", "content": text})
@@ -611,6 +613,7 @@ def play(app, case, cid):
             out.append((None, e, list(app.crashes)))
             break
         finally:
+            steps.spin_stop()
             app.max_steps = max(app.max_steps, steps.stop())
             app.prompts_by_turn[t] = [e.get("prompt", "") for e in app.log.items if e.get("kind") == "llm"]
             app.log.clear()
@@ -667,9 +670,10 @@ def _raise_site(e):
 def _run(app, case, cid):
     turns = play(app, case, cid)
     problem = None
+    hostile_turns = {_positions(case["mode"], case["ttypes"])[case["pos"]][0]} | set(case.get("again") or ())
     for t, (reply, exc, failed) in enumerate(turns):
         lit = None
-        if case["origin"].startswith("taintw"):
+        if case["origin"].startswith("taintw") and t in hostile_turns:  # only where the LLM's text was the planted one
             lit = next((tx for tx, _mk_ in TAINT if ("The value is %s ok" % tx) in case["text"]), None)
         v = judge_reply(reply, exc, case["markers"], failed, _W["LLMCallException"], literal=lit)
         if v:
@@ -804,6 +808,8 @@ def run_case(case):
             in_compute_next_steps=problem.get("in_compute_next_steps", False),
             after_hostile_turn=problem["turn"] > hturn,
             brace_expr_in_text=("{" in text and "}" in text),
+            double_brace_in_text=("{{" in text or "}}" in text),
+            dollar_name_in_text=("$" in text),
             empty_completion=(text.strip() == ""),
             llm_wrote_flow_header=text.lstrip("\n ").startswith("flow"),
             no_bot_intent_line=("bot intent:" not in text),
@@ -829,6 +835,8 @@ def run_case(case):
 def classify(r):
     mode, kind, mech, what = r.get("mode"), r.get("kind"), r.get("mech", "?"), r.get("what")
     if what == "message-text-not-literal" and str(mode).startswith("v2"):
+        if r.get("double_brace_in_text") and not r.get("dollar_name_in_text"):
+            return "v2-double-braces-of-interpolated-value-collapsed"
         return "v2-dollar-name-in-message-text-rewritten"
     if what == "taint-evaluated" and str(mode).startswith("v2") and kind in V2_CODE_KINDS and r.get("brace_expr_in_text"):
         return "v2-llm-bot-say-string-evaluated"
